@@ -104,6 +104,9 @@ struct PacketReader<'a> {
     report: Rc<RefCell<LagReport>>,
     out_cum_by_doc: VecDeque<u64>,
     total_docs: u64,
+    /// pool[..n_random] are drawn at random; pool[n_random], if present, opens the stream
+    n_random: usize,
+    head_pending: bool,
 }
 
 impl<'a> PacketReader<'a> {
@@ -112,7 +115,12 @@ impl<'a> PacketReader<'a> {
             return false;
         }
         self.remaining_docs -= 1;
-        let i = self.seq_rng.below(self.pool.len());
+        let i = if self.head_pending {
+            self.head_pending = false;
+            self.n_random
+        } else {
+            self.seq_rng.below(self.n_random)
+        };
         let (bytes, out_len) = &self.pool[i];
         self.pending.extend(bytes.iter());
         self.generated += bytes.len() as u64;
@@ -120,7 +128,7 @@ impl<'a> PacketReader<'a> {
         true
     }
     fn avg_doc(&self) -> usize {
-        (self.pool.iter().map(|p| p.0.len()).sum::<usize>() / self.pool.len()).max(1)
+        (self.pool[..self.n_random].iter().map(|p| p.0.len()).sum::<usize>() / self.n_random).max(1)
     }
 }
 
@@ -321,6 +329,28 @@ fn make_pool(spec: &StreamSpec) -> Vec<(Vec<u8>, u64)> {
     pool
 }
 
+/// For YAML sources the stream may OPEN with a document in a style that other
+/// detection trials look at too (a flow sequence or flow mapping that is not
+/// JSON, a block mapping without a document start marker). Returns the bytes
+/// and the output length; chosen from the pool seed.
+fn head_doc(spec: &StreamSpec) -> Option<(Vec<u8>, u64)> {
+    if spec.src != Fmt::Yaml {
+        return None;
+    }
+    let b: &[u8] = match spec.pool_seed % 4 {
+        0 => return None,
+        1 => b"[ev, 0]\n",
+        2 => b"{ev: 0, at: start}\n",
+        _ => b"ev: 0\nat: start\n",
+    };
+    let single = run_slice(b, Some(Fmt::Yaml), spec.to);
+    if single.verdict.is_ok() {
+        Some((b.to_vec(), single.out.len() as u64))
+    } else {
+        None
+    }
+}
+
 pub struct StreamResult {
     pub verdict: Verdict,
     pub lag: LagReport,
@@ -334,9 +364,15 @@ pub struct StreamResult {
 }
 
 pub fn run_stream(spec: &StreamSpec) -> Option<StreamResult> {
-    let pool = make_pool(spec);
+    let mut pool = make_pool(spec);
     if pool.is_empty() {
         return None;
+    }
+    let n_random = pool.len();
+    let head = head_doc(spec);
+    let has_head = head.is_some();
+    if let Some(h) = head {
+        pool.push(h);
     }
     let clock = Rc::new(RefCell::new(Clock { written: 0, hash: FNV_INIT, write_calls: 0 }));
     let report = Rc::new(RefCell::new(LagReport::default()));
@@ -359,6 +395,8 @@ pub fn run_stream(spec: &StreamSpec) -> Option<StreamResult> {
         report: report.clone(),
         out_cum_by_doc: VecDeque::new(),
         total_docs: spec.n_docs as u64,
+        n_random,
+        head_pending: has_head,
     };
     let writer = CountingWriter(clock.clone());
     let from = if spec.detect { None } else { Some(spec.src.xt()) };
@@ -371,8 +409,8 @@ pub fn run_stream(spec: &StreamSpec) -> Option<StreamResult> {
     let mut expected = 0u64;
     let mut input_bytes = 0u64;
     let mut h = FNV_INIT;
-    for _ in 0..spec.n_docs {
-        let i = r.below(pool.len());
+    for d in 0..spec.n_docs {
+        let i = if d == 0 && has_head { n_random } else { r.below(n_random) };
         expected += pool[i].1;
         input_bytes += pool[i].0.len() as u64;
         // the hash needs the bytes: translate on demand only for small pools (cached per pool entry)
@@ -381,8 +419,8 @@ pub fn run_stream(spec: &StreamSpec) -> Option<StreamResult> {
     // hash: recompute by translating each distinct pool entry once
     let outs: Vec<Vec<u8>> = pool.iter().map(|(b, _)| run_slice(b, Some(spec.src), spec.to).out).collect();
     let mut r = Rng::new(seq_seed);
-    for _ in 0..spec.n_docs {
-        let i = r.below(pool.len());
+    for d in 0..spec.n_docs {
+        let i = if d == 0 && has_head { n_random } else { r.below(n_random) };
         h = fnv_feed(h, &outs[i]);
     }
     let (written, hash, write_calls) = {
@@ -494,7 +532,7 @@ pub fn run(ctx: &Ctx) -> i32 {
         acc.sample_every(37, || sp[i].json());
         judge(&sp[i], acc);
     });
-    let rule = format!("{} streams: sources JSON/MessagePack/YAML x targets JSON/MessagePack/YAML x 6 packetisations (one document per read, three per read, half a document, single bytes, 100 KB blocks, random) x explicit/detected x document size classes (tiny, ~1 KiB generated, ~50 KiB, ~300 KiB) x stream lengths up to {} documents, generated on the fly with O(1) harness memory; the lag invariant is evaluated at EVERY read() call; peak live heap measured with a counting allocator per call and compared with the same stream at a tenth of the length; live heap sampled at the deciles of every stream of >= 1000 documents (steady growth over the second half = a per-document leak); distinct non-trivial = distinct stream specifications", sp.len(), if ctx.thorough() { 300000 } else { 3000 });
+    let rule = format!("{} streams: sources JSON/MessagePack/YAML x targets JSON/MessagePack/YAML x 6 packetisations (one document per read, three per read, half a document, single bytes, 100 KB blocks, random) x explicit/detected x document size classes (tiny, ~1 KiB generated, ~50 KiB, ~300 KiB; YAML streams also open with a flow sequence, a flow mapping or an unmarked block mapping) x stream lengths up to {} documents, generated on the fly with O(1) harness memory; the lag invariant is evaluated at EVERY read() call; peak live heap measured with a counting allocator per call and compared with the same stream at a tenth of the length; live heap sampled at the deciles of every stream of >= 1000 documents (steady growth over the second half = a per-document leak); distinct non-trivial = distinct stream specifications", sp.len(), if ctx.thorough() { 300000 } else { 3000 });
     ev::finish(
         Finish { ctx, level: "exploration", rule, assumptions: vec!["memory bound constants: 2 MiB + 128 x largest document; growth slack 128 KiB (measured slack on the pinned tree: < 16 KiB, worst ratio 46 for dense YAML)".into(), "the harness's own allocations during a call are bounded by one packet plus a few queue entries".into()], extra: serde_json::Map::new(), exhaustive: false, min_distinct: 100, must_reach: vec![("read_calls_monitored".into(), 10000), ("length_pairs_compared".into(), 20), ("live_heap_decile_series_compared".into(), 20), ("streams_yaml_detected".into(), 5), ("streams_json_detected".into(), 5), ("streams_msgpack_detected".into(), 5)] },
         acc,
